@@ -50,7 +50,7 @@ theorem refresh_replaces (s : State) (loc : Loc) (e : Entry) (nc : Option (List 
     ∃ d, servedAt s loc = .doc d ∧
       ∀ e', lookup (updateCrlEntry s loc e nc).1.entries loc = some e' → e'.store.doc = some d := by
   unfold updateCrlEntry at hok ⊢
-  by_cases hc : (e.closed && s.cfg.disk) = true
+  by_cases hc : refreshRefused s e = true
   · simp [hc] at hok
   · simp only [hc, Bool.false_eq_true, ↓reduceIte] at hok ⊢
     by_cases hl : (!e.store.hasLocs) = true
@@ -75,7 +75,7 @@ what it parsed never influences any verdict. -/
 theorem rejected_load_leaves_nothing (s : State) (loc : Loc) (e : Entry) (cands : List Signer)
     (hfail : (loadCRL s loc e cands).2 = .err) : (loadCRL s loc e cands).1 = s := by
   unfold loadCRL at hfail ⊢
-  by_cases hc : (e.closed && s.cfg.disk) = true
+  by_cases hc : loadRefused s e = true
   · simp only [hc, ↓reduceIte]
   · simp only [hc, Bool.false_eq_true, ↓reduceIte] at hfail ⊢
     cases hst : stage s.cfg.sigMode firstLoadHonoursMode (servedAt s loc) cands with
@@ -89,7 +89,7 @@ theorem rejected_refresh_keeps_store (s : State) (loc : Loc) (e : Entry) (nc : O
     (hfail : (updateCrlEntry s loc e nc).2 = .err) :
     ∀ e', lookup (updateCrlEntry s loc e nc).1.entries loc = some e' → e'.store = e.store ∧ e'.loaded = e.loaded := by
   unfold updateCrlEntry at hfail ⊢
-  by_cases hc : (e.closed && s.cfg.disk) = true
+  by_cases hc : refreshRefused s e = true
   · simp only [hc, ↓reduceIte]; intro e' he'; rw [hcur] at he'; cases he'; exact ⟨rfl, rfl⟩
   · simp only [hc, Bool.false_eq_true, ↓reduceIte] at hfail ⊢
     by_cases hl : (!e.store.hasLocs) = true
